@@ -8,7 +8,8 @@ from . import check as _check
 
 
 class Minimiser:
-    def __init__(self, ctx, vclass, sig, budget=120, jobs=8, log=None):
+    def __init__(self, ctx, vclass, sig, budget=120, jobs=8, log=None, hint=None):
+        self.hint = hint or {}
         self.ctx = ctx
         self.vclass = vclass
         self.sig = sig
@@ -163,7 +164,13 @@ class Minimiser:
             case = self.try_one(case, "git -> ok", env_set("git", "ok:x"))
         if "git_repo" not in (case.get("base_env") or {}):
             case = self.try_one(case, "tree tracked by git", env_set("git_repo", "tracked"))
-        case = self.try_one(case, "hashseed -> 0", lambda c: c.__setitem__("hashseed", 0))
+        if "base_hashseed" in case:
+            # the hash seed differs from the twin's: first see whether that difference matters
+            def same_seed(c):
+                c["hashseed"] = c.pop("base_hashseed")
+            case = self.try_one(case, "same hash seed as the twin", same_seed)
+        if "base_hashseed" not in case:
+            case = self.try_one(case, "hashseed -> 0", lambda c: c.__setitem__("hashseed", 0))
         # 3. selection
         sel = case["selection"]
         if sel.get("main_files"):
@@ -183,13 +190,20 @@ class Minimiser:
             case = self.ddmin_list(case, lambda c: c["probe"]["api"], lambda c, v: (c["probe"].__setitem__("api", v), c)[1], "api fragments")
         case = self.try_one(case, "canonical include order", lambda c: c["probe"].__setitem__("include_order", None))
         # 5. toolchain
+        if self.vclass == "TOOLCHAIN_DEPENDENT" and "b" not in case["toolchain"] and self.hint.get("toolchain_b"):
+            # found by a matrix plan or by asking the other configurations after a double reject:
+            # name the two configurations that disagree explicitly
+            def explicit_pair(c):
+                comp, std = self.hint["toolchain_b"].split("/")
+                c["toolchain"] = {"a": c["toolchain"]["a"], "b": [comp, std], "b_variant": self.hint.get("b_variant", "multi")}
+            case = self.try_one(case, "explicit toolchain pair", explicit_pair)
         if self.vclass != "TOOLCHAIN_DEPENDENT" and "b" in case["toolchain"]:
             def drop_b(c):
                 c["toolchain"].pop("b", None)
                 c["toolchain"].pop("b_variant", None)
             case = self.try_one(case, "single toolchain", drop_b)
         case = self.try_one(case, "toolchain a -> g++/c++14", lambda c: c["toolchain"].__setitem__("a", ["g++", "c++14"]))
-        if self.vclass == "TOOLCHAIN_DEPENDENT":
+        if self.vclass == "TOOLCHAIN_DEPENDENT" and "b" in case["toolchain"]:
             for std in ("c++14",):
                 case = self.try_one(case, "toolchain a std -> %s" % std, lambda c, std=std: c["toolchain"].__setitem__("a", [c["toolchain"]["a"][0], std]))
                 case = self.try_one(case, "toolchain b std -> %s" % std, lambda c, std=std: c["toolchain"].__setitem__("b", [c["toolchain"]["b"][0], std]))
